@@ -18,6 +18,7 @@ const farStep = uint64(1) << 62
 // ---------------------------------------------------------------- workload
 
 type c18Meta struct {
+	Large   bool   // large-geometry round (frames well above the 64-sample block size)
 	Shape   string // twins | pair | free
 	Policy  string
 	Clients int
@@ -63,14 +64,31 @@ func genC18(seed uint64, idx int, thorough bool) (spec.Run, c18Meta) {
 	if nClients > 12 {
 		maxDim = 12
 	}
+	// Large-geometry rounds: code-blocks, precincts and tiles default to 64 samples, so paths
+	// that only full-size blocks take need frames well above 64x64. Every tenth round of the
+	// JPEG 2000 family runs three twins on frames of 127..160 pixels.
+	large := isJ2K(meta.Focus[0]) && (idx/len(allTS))%10 == 7
+	if large {
+		nClients = 3
+		meta.Clients = 3
+		meta.Large = true
+		maxDim = 160
+	}
 	run := spec.Run{Mode: "sched", Seed: seed, Gomaxprocs: meta.Gomax, SortMaps: true}
 	// Run shapes (cycled): shared-state defects usually need the *same* code path in two
 	// clients at once, so one third of the runs are "twins" (every client performs the same
 	// kind of call on the focus codec with the same frame description, different content),
 	// one third pair an encoder with a decoder of the same description, one third are free.
 	meta.Shape = []string{"twins", "pair", "free"}[(idx/(5*len(allTS)))%3]
+	if large {
+		meta.Shape = "twins"
+	}
 	twinKind := []string{"enc", "dec"}[(idx/(15*len(allTS))+idx)%2]
 	sharedInfo := genInfo(wr.Child(7), meta.Focus[0], genOpt{maxDim: maxDim, signed: true})
+	if large {
+		sharedInfo.W, sharedInfo.H = spec.Pick(wr, []int{127, 128, 129, 160}), spec.Pick(wr, []int{127, 128, 129, 160})
+		sharedInfo.SPP, sharedInfo.PI, sharedInfo.Planar = 1, "MONOCHROME2", 0
+	}
 	for c := 0; c < nClients; c++ {
 		cr := wr.Child(uint64(100 + c))
 		nOps := 1
@@ -80,7 +98,7 @@ func genC18(seed uint64, idx int, thorough bool) (spec.Run, c18Meta) {
 		if thorough && cr.Chance(1, 10) {
 			nOps = 3
 		}
-		if nClients > 12 {
+		if nClients > 12 || large {
 			nOps = 1
 		}
 		var t spec.Task
@@ -92,6 +110,8 @@ func genC18(seed uint64, idx int, thorough bool) (spec.Run, c18Meta) {
 			force := ""
 			var useInfo *spec.Info
 			switch {
+			case large:
+				ts, force, useInfo = meta.Focus[0], twinKind, &sharedInfo
 			case meta.Shape == "twins" && (k == 0 || cr.Bool()):
 				ts, force, useInfo = meta.Focus[0], twinKind, &sharedInfo
 			case meta.Shape == "pair" && c < 2 && k == 0:
@@ -400,6 +420,16 @@ func plan(b *Build, run *spec.Run, meta *c18Meta, rc *refCache, seed uint64) {
 	if meta.Shape == "twins" && pol >= 10 && pol < 15 {
 		pol = 0 // twins runs favour pin-and-sweep (15/20)
 	}
+	segCap := 6000
+	if meta.Large {
+		// long operations with dense, unrecognisable sharing (an object handed out by a factory):
+		// fine-grained round-robin keeps every client's recent past inside its trace
+		pol = 10 + r.Intn(2)*9 // round-robin or random-walk
+		if r.Chance(1, 3) {
+			pol = 0
+		}
+		segCap = 60000
+	}
 	switch {
 	case pol < 10: // pin-and-sweep
 		meta.Policy = "pin-and-sweep"
@@ -448,7 +478,7 @@ func plan(b *Build, run *spec.Run, meta *c18Meta, rc *refCache, seed uint64) {
 		q := uint64(50 + r.Intn(1951))
 		meta.Policy = fmt.Sprintf("round-robin(%d)", q)
 		cur := make([]uint64, n)
-		for len(segs) < 6000 {
+		for len(segs) < segCap {
 			progressed := false
 			for t := 0; t < n; t++ {
 				if cur[t] < tl[t].total+q {
